@@ -137,6 +137,27 @@ def _match(obs, pool, used, scale):
     return None
 
 
+def _locate(t, ref_t, tt):
+    """indices of the original points ref_t (non-decreasing, possibly tied) in t; an inserted point may coincide with the
+    original that follows it (residual of the repeated subtraction of eps): the LAST coincident points are the originals.
+    Returns the list of indices, or the first original time that is missing (float)."""
+    m, idx, pos, i = len(t), [], 0, 0
+    while i < len(ref_t):
+        r, g = ref_t[i], 1
+        while i + g < len(ref_t) and abs(ref_t[i + g] - r) <= tt:
+            g += 1
+        while pos < m and t[pos] < r - tt:
+            pos += 1
+        c0 = pos
+        while pos < m and abs(t[pos] - r) <= tt:
+            pos += 1
+        if pos - c0 < g:
+            return float(r)
+        idx.extend(range(pos - g, pos))
+        i += g
+    return idx
+
+
 def _icls(n):
     return "intervals=1" if n == 1 else "intervals>1"
 
@@ -332,16 +353,11 @@ def _oracle(sh, d, mode, eps, counts, us, t, D, J, pool, used_batch, p_index):
             return
         idx = list(range(m1))
     else:
-        pos = 0
-        for r in ref_t:
-            while pos < m1 and t[pos] < r - tt:
-                pos += 1
-            if pos >= m1 or abs(t[pos] - r) > tt:
-                viol("original-time-missing", f"original time {r} is not among the returned times {t}")
-                sh.outcome((sim, mode, counts, "original-missing"))
-                return
-            idx.append(pos)
-            pos += 1
+        idx = _locate(t, ref_t, tt)
+        if isinstance(idx, float):
+            viol("original-time-missing", f"original time {idx} is not among the returned times {t}")
+            sh.outcome((sim, mode, counts, "original-missing"))
+            return
     orig = set(idx)
     for i in range(len(ref_t) - 1):
         if ref_t[i + 1] > ref_t[i] + tt and not t[idx[i + 1]] > t[idx[i]]:
@@ -446,77 +462,101 @@ def _oracle(sh, d, mode, eps, counts, us, t, D, J, pool, used_batch, p_index):
 
 
 def _check_jumps(sh, d, viol, mode, comps, groups, idx, jump_interval, n, scale, t, orig):
-    """fine component: running sum of the produced jump sizes; coarse component: running sum of allowed coarse moves."""
+    """fine component: running sum of the produced jump sizes; coarse component: running sum of allowed coarse moves.
+    The whole path is fitted to the running-sum model; when that fails it is fitted to the "restart" model (sums restart
+    from zero at every product date) only in order to give that known pattern its own violation key."""
     Jf = comps[0][1]
     Jc = comps[1][1] if len(comps) > 1 else None
+    zero = np.zeros(Jf.shape[0])
+
     if mode == "fixed":
-        run = np.zeros(Jf.shape[0])
-        for k in range(n):
-            tot = sum((v for v, _ in groups[k]), np.zeros(Jf.shape[0]))
-            run = run + tot
-            if not _vclose(Jf[:, k + 1], run, scale):
-                if k > 0 and _vclose(Jf[:, k + 1], tot, scale):
-                    viol("jump-sum-restarts-at-each-date:fine",
-                         f"jump component at date {k + 1} is {Jf[:, k + 1]} = jumps of interval {k + 1} only; running sum {run}")
-                else:
-                    viol("jump-path-not-running-sum:fine", f"jump component at date {k + 1} is {Jf[:, k + 1]}, running sum {run}")
-                break
-        if Jc is not None:
+        def fit_fine(model):
+            run = zero
             for k in range(n):
-                sums = [np.zeros(Jc.shape[0])]
+                tot = sum((v for v, _ in groups[k]), zero)
+                run = run + tot if model == "running" else tot
+                if not _vclose(Jf[:, k + 1], run, scale):
+                    return f"jump component at date {k + 1} is {Jf[:, k + 1]}, {model} sum {run}"
+            return None
+
+        def fit_coarse(model, _hits=None):
+            for k in range(n):
+                sums = [zero]
                 for _, s in groups[k]:
                     sums = [a + b for a in sums for b in d.coarse_allowed(s)]
-                inc = Jc[:, k + 1] - Jc[:, k]
-                if not any(_vclose(inc, s, scale) for s in sums):
-                    if k > 0 and any(_vclose(Jc[:, k + 1], s, scale) for s in sums):
-                        viol("jump-sum-restarts-at-each-date:coarse",
-                             f"coarse jump component at date {k + 1} is {Jc[:, k + 1]} = moves of interval {k + 1} only "
-                             f"(previous date {Jc[:, k]})")
-                    else:
-                        viol("jump-path-not-running-sum:coarse",
-                             f"coarse increment over interval {k + 1} is {inc}; allowed sums {sums[:6]}")
-                    break
-        return
-    # jump-time modes: idx[1:-1] are the jump points in time order, idx[-1] the maturity
-    used = [set() for _ in range(n)]
-    prev = 0
-    prev_k = None
-    for q, k in enumerate(jump_interval):
-        i = idx[q + 1]
-        inc = Jf[:, i] - Jf[:, idx[q]] if q > 0 else Jf[:, i] - Jf[:, 0]
-        hit = _match(inc, [v for v, _ in groups[k]], used[k], scale)
-        if hit is None:
-            # restart hypothesis: the value itself (first jump of an interval) is one fresh jump size
-            if k > 0 and prev_k != k and _match(Jf[:, i], [v for v, _ in groups[k]], used[k], scale) is not None:
-                viol("jump-sum-restarts-at-each-date:fine",
-                     f"at the first jump of interval {k + 1} (t={t[i]}) the jump component {Jf[:, i]} forgets the previous "
-                     f"intervals (previous value {Jf[:, idx[q]]})")
+                inc = Jc[:, k + 1] - (Jc[:, k] if model == "running" else zero)
+                if not any(_vclose(inc, x, scale) for x in sums):
+                    return (f"coarse component at date {k + 1} is {Jc[:, k + 1]} (previous date {Jc[:, k]}); allowed "
+                            f"moves over interval {k + 1}: {sums[:6]}")
+            return None
+        hits = {"running": None, "restart": None}
+    else:
+        hits = {}
+
+        def fit_fine(model):
+            used = [set() for _ in range(n)]
+            prev_k, out = None, []
+            for q, k in enumerate(jump_interval):
+                i = idx[q + 1]
+                base = Jf[:, idx[q]]
+                if model == "restart" and prev_k != k:
+                    base = zero
+                inc = Jf[:, i] - base
+                hit = _match(inc, [v for v, _ in groups[k]], used[k], scale)
+                if hit is None:
+                    return (f"increment {inc} at jump time {t[i]} (value {Jf[:, i]}, previous point {Jf[:, idx[q]]}) is not one "
+                            f"unused jump size of interval {k + 1}: {[v for v, _ in groups[k]]}")
+                used[k].add(hit)
+                out.append(hit)
+                prev_k = k
+            hits[model] = out
+            return None
+
+        def fit_coarse(model, hlist):
+            prev_k = None
+            for q, k in enumerate(jump_interval):
+                i = idx[q + 1]
+                base = Jc[:, idx[q]]
+                if model == "restart" and prev_k != k:
+                    base = zero
+                cinc = Jc[:, i] - base
+                state = groups[k][hlist[q]][1]
+                allowed = d.coarse_allowed(state)
+                if not any(_vclose(cinc, a, scale) for a in allowed):
+                    return (f"coarse increment {cinc} at t={t[i]} (value {Jc[:, i]}, previous point {Jc[:, idx[q]]}) for fine "
+                            f"state increment {state}; allowed {allowed}")
+                prev_k = k
+            return None
+
+    fine_model = None
+    msg = fit_fine("running")
+    if msg is None:
+        fine_model = "running"
+    else:
+        msg2 = fit_fine("restart") if n > 1 else "n/a"
+        if msg2 is None:
+            fine_model = "restart"
+            viol("jump-sum-restarts-at-each-date:fine", "the jump component forgets the jumps of the previous intervals: " + msg)
+        else:
+            viol("jump-path-not-running-sum:fine", msg)
+    if Jc is not None and fine_model is not None:
+        hl = hits.get(fine_model)
+        msg = fit_coarse("running", hl)
+        if msg is not None:
+            msg2 = fit_coarse("restart", hl) if n > 1 else "n/a"
+            if msg2 is None:
+                viol("jump-sum-restarts-at-each-date:coarse",
+                     "the coarse jump component forgets the moves of the previous intervals: " + msg)
             else:
-                viol("jump-path-not-running-sum:fine",
-                     f"increment {inc} at jump time {t[i]} is not one unused jump size of interval {k + 1}: "
-                     f"{[v for v, _ in groups[k]]}")
-            return
-        used[k].add(hit)
-        if Jc is not None:
-            allowed = d.coarse_allowed(groups[k][hit][1])
-            cinc = Jc[:, i] - Jc[:, idx[q]] if q > 0 else Jc[:, i] - Jc[:, 0]
-            if not any(_vclose(cinc, a, scale) for a in allowed):
-                if k > 0 and prev_k != k and any(_vclose(Jc[:, i], a, scale) for a in allowed):
-                    viol("jump-sum-restarts-at-each-date:coarse",
-                         f"at the first jump of interval {k + 1} (t={t[i]}) the coarse component {Jc[:, i]} forgets the previous "
-                         f"intervals")
-                else:
-                    viol("jump-path-not-running-sum:coarse",
-                         f"coarse increment {cinc} at t={t[i]} for fine state increment {groups[k][hit][1]}; allowed {allowed}")
+                viol("jump-path-not-running-sum:coarse", msg)
+    if mode != "fixed":
+        # maturity repeats the last value
+        last, before = idx[-1], idx[-2]
+        for c, (_, Jx) in enumerate(comps):
+            if np.any(np.abs(Jx[:, last] - Jx[:, before]) > 1e-15):
+                viol("jump-value-at-maturity-differs-from-last-jump:" + ("fine" if c == 0 else "coarse"),
+                     f"jump component {Jx[:, last]} at maturity, {Jx[:, before]} at the last jump")
                 return
-        prev_k = k
-    # maturity repeats the last value
-    last, before = idx[-1], idx[-2]
-    for c, (_, Jx) in enumerate(comps):
-        if np.any(np.abs(Jx[:, last] - Jx[:, before]) > 1e-15):
-            viol("jump-value-at-maturity-differs-from-last-jump:" + ("fine" if c == 0 else "coarse"),
-                 f"jump component {Jx[:, last]} at maturity, {Jx[:, before]} at the last jump")
-            return
 
 
 # ----------------------------------------------------------------------------------------------------------------------
@@ -579,20 +619,10 @@ def _sub_finer(sh, case):
             sh.violation(f"{key0}:step-exceeds-maximum:" + ("first-gap" if j == 0 else "gap-between-jumps"),
                          f"times {ts} eps {eps}: step {steps[j]} ending at {at[j]}", detail)
         # originals present, in order
-        pos, idx, ok = 0, [], True
-        for r in times:
-            while pos < m and at[pos] < r - tt:
-                pos += 1
-            if pos >= m or abs(at[pos] - r) > tt:
-                sh.violation(f"{key0}:original-time-missing", f"times {ts} eps {eps}: {r} not in {at}", detail)
-                ok = False
-                break
-            idx.append(pos)
-            pos += 1
-        if not ok:
+        idx = _locate(at, [float(x) for x in times], tt)
+        if isinstance(idx, float):
+            sh.violation(f"{key0}:original-time-missing", f"times {ts} eps {eps}: {idx} not in {at}", detail)
             continue
-        if idx[-1] != m - 1:
-            sh.violation(f"{key0}:points-after-the-last-original-time", f"times {ts} eps {eps}: {at}", detail)
         orig = set(idx)
         for a, r in zip(avs, refs):
             a2, r2 = np.atleast_2d(a), np.atleast_2d(r)
